@@ -293,6 +293,10 @@ def monC07 (_cfg : Cfg) (evs : Array Ev) : String := Id.run do
       if closeReturned then
         if !anyEv evs (fun e => match e with | .sr s "err" => s == sid | _ => false) then
           return "violated:subscribe_after_close_succeeded"
+    | .hu _ =>
+      -- "after Close has returned … no Pub/Sub goroutine remains": an unsubscribe goroutine that has not yet removed its
+      -- subscriber when some Close call has already returned (every Close call, also an overlapping second one)
+      if closeReturned then return "violated:unsubscribe_goroutine_active_after_close_returned"
     | .zz s =>
       if zzSeen.contains s then return "violated:output_channel_closed_twice"
       zzSeen := s :: zzSeen
